@@ -294,7 +294,7 @@ ADDED = {
 }
 ADDED2 = {'C03': " One inductive step of the framing function (`framing_step`): from every PDU boundary of every conversation's stream with a SYMBOLIC fill level, one call of the real _process_incoming consumes exactly one complete PDU or nothing.", 'C05': ' A connection reset by the peer is an event of the alphabet (reads and writes fail).', 'C06': ' A message of 1..40 PDUs handed to a real provider reaches the socket PDU for PDU.', 'C09': ' 120..128 proposed contexts; entity configured with a title different from the called one.', 'C11': ' Peer maximum 0 / boundary values in the reply; classes configured with different transfer-syntax sets.', 'C12': ' Pipelined floods of up to 48 messages with the user not reading (bounded queues are modelled).', 'C13': ' recv(MSG_WAITALL) and connection resets are modelled; requestor-side release collision in the corpus.', 'C16': ' c_find called up to 70 times in a row over live requesters.', 'C18': ' The statuses yielded by the C-MOVE / C-FIND / C-GET users for a symbolic code.', 'C19': ' The release of the C-MOVE sub-association may time out (symbolic).', 'C20': ' Two live requesters alive at once under all 256 schedule words (thorough) / 64 (quick); simultaneous reads with a thread switch right after a read returns.'}
 for _pid, _txt in ADDED2.items():
-    ADDED[_pid] = ADDED[_pid] + _txt
+    ADDED[_pid] = ADDED.get(_pid, '') + _txt
 for _pid, _txt in ADDED.items():
     CLAIMED[_pid]['text'] = CLAIMED[_pid]['text'] + _txt
 
